@@ -1,4 +1,5 @@
 import GdslModel.Lemmas.Bfs
+import GdslModel.Lemmas.Extra
 /-!
 # C04 — breadth-first search finds a shortest path iff one exists
 `A = accAdj adj acc` is the graph of accepted edges. All statements are conditional on the loop
@@ -54,5 +55,63 @@ theorem Bfs.fuel_enough (adj : K → List (K × E)) (acc : K → K → E → Boo
 example : (searchPath (K := Nat) (E := Nat)
     (fun u => if u = 0 then [(0, 9), (1, 0), (1, 1), (2, 2)] else if u = 1 then [(0, 3), (3, 4)] else if u = 2 then [(3, 5)] else [])
     (fun _ _ _ => true) (fun _ => 0) .bfs 0 (some 3) false 6).map (·.1) = some (some [(0, 1, 0), (1, 3, 4)]) := by decide
+
+/-! ### graphs built by histories: fuel `number of distinct keys + 1` always suffices
+`opKeys ops` (Lemmas/Extra.lean) lists the operands of the operations of a history. -/
+
+/-- `disconnect` and `isolate` (both flavours, also their failing and panicking branches) only remove
+    entries: every entry of the resulting store is an entry of the same list of the same node before -/
+theorem History.removals_only_remove (s : Store K E) (u v : K) :
+    Sub (Di.disconnect s u v).1 s ∧ Sub (Di.isolate s u).1 s ∧
+    Sub (Un.disconnect s u v).1 s ∧ Sub (Un.isolate s u).1 s :=
+  ⟨Di.disconnect_sub s u v, Di.isolate_sub s u, Un.disconnect_sub s u v, Un.isolate_sub s u⟩
+
+/-- every adjacency entry of a graph built by a history names an operand of one of its operations
+    (only `connect` / `try_connect` add entries, and they add their own operands) -/
+theorem History.entries_in_keys (ops : List (Op K E)) :
+    (∀ k p, p ∈ ((Di.run ops).get k).out ++ ((Di.run ops).get k).inn → p.1 ∈ opKeys ops) ∧
+    (∀ k p, p ∈ ((Un.run ops).get k).out ++ ((Un.run ops).get k).inn → p.1 ∈ opKeys ops) :=
+  ⟨Di.run_keysIn ops, Un.run_keysIn ops⟩
+
+/-- hence the distinct keys of the history are a finite universe closed under the (filtered) edges,
+    for plain, transposed and undirected iteration -/
+theorem History.closed (ops : List (Op K E)) (acc : K → K → E → Bool) :
+    Closed (accAdj (outAdj (Di.run ops)) acc) (opKeys ops).eraseDups ∧
+    Closed (accAdj (inAdj (Di.run ops)) acc) (opKeys ops).eraseDups ∧
+    Closed (accAdj (unAdj (Un.run ops)) acc) (opKeys ops).eraseDups :=
+  history_closed_eraseDups ops acc
+
+/-- the same for every list of nodes that contains the keys of the history (the driver's node table) -/
+theorem History.closed_of_nodes (ops : List (Op K E)) (acc : K → K → E → Bool) (nodes : List K)
+    (hk : ∀ k ∈ opKeys ops, k ∈ nodes) :
+    Closed (accAdj (outAdj (Di.run ops)) acc) nodes ∧ Closed (accAdj (inAdj (Di.run ops)) acc) nodes ∧
+    Closed (accAdj (unAdj (Un.run ops)) acc) nodes :=
+  history_closed ops acc nodes hk
+
+/-- breadth-first search on a graph built by a history never runs out of fuel when given
+    `number of distinct keys + 1`: plain, transposed and undirected, any filter, target and mode -/
+theorem Bfs.history_fuel (ops : List (Op K E)) (acc : K → K → E → Bool) (nval : K → Int) (root : K)
+    (target : Option K) (cycle : Bool) (hr : root ∈ opKeys ops) :
+    (runLoop (outAdj (Di.run ops)) acc nval .bfs root target cycle ((opKeys ops).eraseDups.length + 1)).isSome = true ∧
+    (runLoop (inAdj (Di.run ops)) acc nval .bfs root target cycle ((opKeys ops).eraseDups.length + 1)).isSome = true ∧
+    (runLoop (unAdj (Un.run ops)) acc nval .bfs root target cycle ((opKeys ops).eraseDups.length + 1)).isSome = true := by
+  have hc := history_closed_eraseDups ops acc
+  have hr' := (mem_eraseDups_opKeys ops root).mpr hr
+  exact ⟨Bfs.fuel_enough _ acc nval root target cycle _ _ hc.1 hr' (Nat.lt_succ_self _),
+    Bfs.fuel_enough _ acc nval root target cycle _ _ hc.2.1 hr' (Nat.lt_succ_self _),
+    Bfs.fuel_enough _ acc nval root target cycle _ _ hc.2.2 hr' (Nat.lt_succ_self _)⟩
+
+/-- the form the driver uses: any node table `nodes` containing the history's keys and the root, any
+    fuel above its length (the driver passes `nodes.length + 2`) -/
+theorem Bfs.history_fuel_of_nodes (ops : List (Op K E)) (acc : K → K → E → Bool) (nval : K → Int) (root : K)
+    (target : Option K) (cycle : Bool) (nodes : List K) (fuel : Nat)
+    (hk : ∀ k ∈ opKeys ops, k ∈ nodes) (hr : root ∈ nodes) (hf : nodes.length < fuel) :
+    (runLoop (outAdj (Di.run ops)) acc nval .bfs root target cycle fuel).isSome = true ∧
+    (runLoop (inAdj (Di.run ops)) acc nval .bfs root target cycle fuel).isSome = true ∧
+    (runLoop (unAdj (Un.run ops)) acc nval .bfs root target cycle fuel).isSome = true := by
+  have hc := history_closed ops acc nodes hk
+  exact ⟨Bfs.fuel_enough _ acc nval root target cycle _ _ hc.1 hr hf,
+    Bfs.fuel_enough _ acc nval root target cycle _ _ hc.2.1 hr hf,
+    Bfs.fuel_enough _ acc nval root target cycle _ _ hc.2.2 hr hf⟩
 
 end G
